@@ -84,10 +84,17 @@ fn p_line(l: Line) -> String {
     format!("OK {}", pts.len())
 }
 
+fn thick(a: &[&str]) -> impl Iterator<Item = Point> {
+    ln(a).into_styled(PrimitiveStyle::with_stroke(Gray8::new(1), u(a[4]))).pixels().map(|p| p.0)
+}
+
 pub fn run(suite: &str, a: &[&str]) -> Option<String> {
     Some(match suite {
         "line_points" => spts(ln(a).points()),
         "line_digest" | "line_walk" => digest(ln(a).points()),
+        "thick_pixels" => spts(thick(a)),
+        "thick_digest" => digest(thick(a)),
+        "line_sbb" => src(ln(a).into_styled(PrimitiveStyle::with_stroke(Gray8::new(1), u(a[4]))).bounding_box()),
         "p_line" => p_line(ln(a)),
         _ => return None,
     })
